@@ -144,6 +144,17 @@ def summarise_arr(orig, ph, name, out, i, iname, n, what):
     if not isinstance(out, Arr):
         raise ModelError("loop changes the type of '%s'" % what)
     if out.ndim != orig.ndim or not all(A.dim_eq(x, y) for x, y in zip(out.shape, orig.shape)):
+        probe = P(out.fn(*[T.fresh("j") for _ in out.shape]))
+        if not mentions(probe, name):
+            jn = [T.fresh("j") for _ in out.shape]
+            jnames = [T.symname(x) for x in jn]
+            o2 = P(out.fn(*jn))
+
+            def fn2(*jj):
+                mp = {nm: P(j) for nm, j in zip(jnames, jj)}
+                mp[iname] = n - 1
+                return T.subst(o2, mp)
+            return Arr(tuple(T.subst(d, {iname: n - 1}) for d in out.shape), fn2, out.dtype, out.kind)
         raise ModelError("loop changes the shape of '%s'" % what)
     idx = [T.fresh("j") for _ in orig.shape]
     o = P(out.fn(*idx))
@@ -159,6 +170,13 @@ def summarise_arr(orig, ph, name, out, i, iname, n, what):
             d = T.subst(delta, mp)
             return P(orig.fn(*jj)) + T.mk_sum(i, n, d)
         return Arr(orig.shape, fn, orig.dtype, out.kind, origin=orig.origin)
+    if not mentions(o, name):
+        # plain rebinding inside the loop: the value of the last iteration
+        def fn(*jj, o=o):
+            mp = {nm: P(j) for nm, j in zip(names, jj)}
+            mp[iname] = n - 1
+            return T.subst(o, mp)
+        return Arr(tuple(T.subst(d, {iname: n - 1}) for d in out.shape), fn, out.dtype, out.kind)
     # R2: out = in + [j0 == i] * (g - in)   with g free of in
     ind = T.mk_ind(T.cmp_cond("==", idx[0], i))
     g = None
